@@ -111,6 +111,19 @@ Section Statements.
     forall o, In o univ -> P o = true -> In o (fst (execute_streamed A eqb cands check arrival err_after)).
   Proof. exact (ListObjectsProofs.execute_streamed_complete A eqb eqb_spec). Qed.
 
+  (* trySendObject at the granularity of its two steps (reserve, then select-send): the race with
+     cancel() can only remove objects *)
+  Theorem evaluate_racy_sound_nodup : forall (P check : A -> bool) cands limit arrival drop,
+    (forall o, check o = true -> P o = true) ->
+    nofurther_sound A P cands = true ->
+    NoDup (evaluate_racy A eqb cands check limit arrival drop) /\
+    forall o, In o (evaluate_racy A eqb cands check limit arrival drop) -> P o = true.
+  Proof. exact (ListObjectsProofs.evaluate_racy_sound_nodup A eqb eqb_spec). Qed.
+
+  Theorem evaluate_racy_no_drop : forall (check : A -> bool) cands limit arrival,
+    evaluate_racy A eqb cands check limit arrival (fun _ => false) = evaluate A eqb cands check limit arrival.
+  Proof. exact (ListObjectsProofs.evaluate_racy_no_drop A eqb). Qed.
+
   (* the pipeline's output stage (DeduplicatingReceiver + Recv loop): duplicate-free, nothing
      invented, sound when the delivered values are, complete without limit, exactly min(limit, distinct) *)
   Theorem pipeline_recv_spec : forall (P : A -> bool) values limit,
@@ -140,6 +153,8 @@ Print Assumptions execute_complete_partial.
 Print Assumptions execute_streamed_sound.
 Print Assumptions execute_streamed_complete.
 Print Assumptions pipeline_recv_spec.
+Print Assumptions evaluate_racy_sound_nodup.
+Print Assumptions evaluate_racy_no_drop.
 
 (* ---- non-vacuity: a concrete run.  Objects 1..5; permitted = odd numbers.  The candidate list
    repeats 1 (second arrival with the other status), offers 2 and 4 for further evaluation and
@@ -281,3 +296,32 @@ Example pipeline_recv_spec_ex :
   pipeline_recv nat Nat.eqb [3; 1; 3; 5; 1] 2 = [3; 1] /\
   (forall o, In o [3; 1; 3; 5; 1] -> ex_P o = true).
 Proof. split; [reflexivity | split; [reflexivity|]]. intros o H. simpl in H. intuition; subst; reflexivity. Qed.
+
+(* ---- the limit theorem at the finer granularity.  lo_limit (above) is the _partial version: its
+   model takes trySendObject's reservation and send as one step, i.e. it excludes the trigger
+   "a reserved send of a RequiresFurtherEval candidate loses the select against cancel()".
+   With the two steps separated the full statement
+        0 < limit <= |permitted candidates|  ->  |output| = limit
+   is refuted: three permitted candidates that all need a Check, limit 1; the first confirmation
+   reserves the slot, the consumer reads the next candidate, sees the limit reached and cancels,
+   the reserved send takes the ctx.Done() branch: nothing is returned.  Observed on the real code
+   (finding limit_cancel_race: ListObjects(user:c, allowed, doc) with maxResults 1 returned [] ,
+   no error, three permitted objects). ---- *)
+Example evaluate_racy_ex :
+  evaluate_racy nat Nat.eqb ex_cands ex_P 2 ex_arrival (fun o => Nat.eqb o 3) = [5] /\
+  evaluate_racy nat Nat.eqb ex_cands ex_P 2 ex_arrival (fun o => Nat.eqb o 5) = [3; 5] /\
+  evaluate_racy nat Nat.eqb ex_cands ex_P 7 ex_arrival (fun _ => true) = [3; 5; 1].
+Proof. vm_compute. repeat split. Qed.
+
+Theorem lo_limit_racy_refuted :
+  exists (P check : nat -> bool) (cands : list (cand nat)) (limit : nat) (arrival : list nat) (drop : nat -> bool),
+    (forall o, check o = P o) /\
+    nofurther_sound nat P cands = true /\
+    0 < limit /\ limit <= length (permitted_cands nat Nat.eqb P cands) /\
+    length (evaluate_racy nat Nat.eqb cands check limit arrival drop) < limit.
+Proof.
+  exists (fun _ => true), (fun _ => true),
+         [(1, RequiresFurtherEval); (2, RequiresFurtherEval); (3, RequiresFurtherEval)], 1, [], (fun _ => true).
+  vm_compute. repeat split; auto.
+Qed.
+Print Assumptions lo_limit_racy_refuted.
